@@ -208,11 +208,11 @@ var properties = map[string]*Property{
 		ID:    "C26",
 		Title: "The multiline reader splits input losslessly at complete-statement boundaries",
 		Units: []Unit{
-			{Kind: "funcs", Pkg: "base", Funcs: []string{"ReadMultiline", "(*Globals).ReadMultiline"}},
+			{Kind: "funcs", Pkg: "base", Funcs: []string{"ReadMultiline", "(*Globals).ReadMultiline", "lastIsKeywordIgnoresNl"}},
 		},
 		NotCovered: []string{
 			"that the concatenation of the chunks is the input (byte buffers and string conversion are not modelled at that level)",
-			"statement boundaries proper: the line-continuation rules (ignorenl after operators, commas, keywords: lastIsKeywordIgnoresNl), the test that cuts a chunk (it is read off the code, not proved: a chunk is cut only when the mode is code and no bracket is open), '#!' rewriting, prompts, first-token position",
+			"statement boundaries proper: the line-continuation rules (ignorenl after operators and commas; for keywords lastIsKeywordIgnoresNl is proved to ask the keyword table whenever the line ends in a lower-case letter and to answer as the table says, but not which word it looks up), the test that cuts a chunk (it is read off the code, not proved: a chunk is cut only when the mode is code and no bracket is open), '#!' rewriting, prompts, first-token position",
 			"Interp.EvalReader / ReadParseEvalPrint, BufReadline / TtyReadline (assumed: every line handed to the reader ends with a newline unless the input ends)",
 		},
 	},
